@@ -499,15 +499,17 @@ def _drop(symbol, text):
 OPTION_SETS = [('plain', {}), ('genTexts', {'genTexts': True}), ('identity-filter', {'textFilter': _identity}),
                ('shouting-filter', {'textFilter': _shout, 'genTexts': True}), ('dropping-filter', {'textFilter': _drop}),
                ('genTexts-off', {'genTexts': False}), ('stock-template-copy', {'dstTemplate': 'COPY'}),
-               ('marker-template', {'dstTemplate': 'MARKER'})]
+               ('marker-template', {'dstTemplate': 'MARKER'}),
+               # a template that has the FILE NAME of the marker template, lives in another directory and cannot be rendered
+               ('broken-template-of-the-same-name', {'dstTemplate': 'BROKEN'})]
 
 
 class OptionHistories(object):
     name = 'option-histories'
     prefix = 'C12'
     describe = ('ONE MibCompiler compiles the same module (UNITS, REVISION and DESCRIPTION texts with line breaks and runs of blanks) '
-                'again and again with options drawn from 8 settings (nothing, genTexts on / off, identity / upper-casing / dropping '
-                'text filter, a copy of the stock template in another directory, a one-line marker template): every sequence of '
+                'again and again with options drawn from 9 settings (nothing, genTexts on / off, identity / upper-casing / dropping '
+                'text filter, a copy of the stock template in another directory, a one-line marker template, an unrenderable template of the same file name elsewhere): every sequence of '
                 'length <=2 (3); each output equals what a fresh compiler gives for the same options; both back ends')
 
     def blocks(self, tier):
@@ -538,7 +540,11 @@ class OptionHistories(object):
                 f.write('MARKER {{ mib["meta"]["module"] if "meta" in mib else "?" }}\n')
             pid = os.getpid()
             atexit.register(lambda: os.getpid() == pid and shutil.rmtree(d, ignore_errors=True))
-            self._tmpl[key] = {'COPY': copy, 'MARKER': marker}
+            os.mkdir(os.path.join(d, 'elsewhere'))
+            broken = os.path.join(d, 'elsewhere', 'marker.j2')
+            with open(broken, 'w') as f:
+                f.write('BROKEN {{ mib["meta"]["no-such-key"]["deeper"] }}\n')
+            self._tmpl[key] = {'COPY': copy, 'MARKER': marker, 'BROKEN': broken}
         return self._tmpl[key]
 
     def compile_with(self, comp, written, backend, opts):
@@ -669,4 +675,54 @@ class Routes(object):
         return repr(sorted((k, v[0][:8]) for k, v in seen.items())), list(dedup.items()), len(case['routes'])
 
 
-FAMILIES = [Histories(), HashSeeds(), OptionHistories(), Routes()]
+class ClassInstances(object):
+    name = 'instances-of-the-shipped-parser-classes'
+    describe = ('three instances each of SmiV2Parser, SmiV1Parser, SmiV1CompatParser / SmiStarParser made in one process; six texts '
+                '(sound, cut inside a module at two places, grammar error on line 7, lexical error on line 4, sound again) fed to '
+                'them in every order of instances: what a text yields - tree or error class and line - is the same on every '
+                'instance, and the line of a cut text is its last line')
+
+    BODY = ('TEST-MIB DEFINITIONS ::= BEGIN\nIMPORTS enterprises FROM SNMPv2-SMI;\n\n'
+            'a OBJECT IDENTIFIER ::= { enterprises 1 }\nb OBJECT IDENTIFIER ::= { a 2 }\n\n'
+            'c OBJECT IDENTIFIER ::= { b 3 }\nd OBJECT IDENTIFIER ::= { c 4 }\n\ne OBJECT IDENTIFIER ::= { d 5 }\nEND\n')
+
+    def texts(self):
+        b = self.BODY
+        return [('sound', b), ('cut-before-END', b[:b.index('END')]), ('cut-on-line-5', b[:b.index('b OBJECT') + 10]),
+                ('grammar-error-on-line-7', b.replace('c OBJECT IDENTIFIER', 'c OBJECT OBJECT')),
+                ('illegal-character-on-line-4', b.replace('a OBJECT IDENTIFIER', 'a OBJECT $ IDENTIFIER')), ('sound-again', b)]
+
+    def blocks(self, tier):
+        return [{'cls': c} for c in ('SmiV2Parser', 'SmiV1Parser', 'SmiV1CompatParser', 'SmiStarParser')]
+
+    def cases(self, block, tier):
+        for order in itertools.permutations(range(3)):
+            yield {'cls': block['cls'], 'order': list(order)}
+
+    def run_case(self, case):
+        import pysmi.parser as P
+        cls = getattr(P, case['cls'])
+        inst = [cls() for _ in range(3)]
+        vs = []
+        seen = {}
+        for label, text in self.texts():
+            for i in case['order']:
+                got = parse_obs(inst[i], text)
+                if label in seen and seen[label] != got:
+                    vs.append(('C12|class-instances|%s|%s-differs-between-instances' % (case['cls'], label),
+                               'instance %d gives %r, another instance gave %r' % (i, got, seen[label])))
+                seen.setdefault(label, got)
+        nlines = {'cut-before-END': (10, 11), 'cut-on-line-5': (5, 6)}
+        for label, ok in nlines.items():
+            got = seen.get(label)
+            line = got[-1] if isinstance(got, tuple) else None
+            if not (isinstance(got, tuple) and got[0] in ('error', 'err') or 'Error' in repr(got)) or \
+                    (isinstance(line, int) and line not in ok):
+                vs.append(('C12|class-instances|%s|%s-line' % (case['cls'], label), repr(got)))
+        dedup = {}
+        for sig, d in vs:
+            dedup.setdefault(sig, d)
+        return repr(sorted(seen.items()))[:200], list(dedup.items()), 18
+
+
+FAMILIES = [Histories(), HashSeeds(), OptionHistories(), Routes(), ClassInstances()]
